@@ -408,7 +408,8 @@ func runC06(r *Run, stratum string) *Violation {
 		simfs.SetFS(fs)
 		defer simfs.SetFS(nil)
 		fs.MkdirAll("/c06cache", 0o777)
-		cacheSetVerify(false)
+		cacheSetVerify(g.Choose("verifycrc", 2) == 1) // deployment knob: sealed segments are checked when a reader opens them
+		defer cacheSetVerify(false)
 		mcfg = config.ChannelConfig{Type: config.ChannelTypeStorer, Storer: &config.StorerConfig{DirPath: "/c06cache", MaxSize: 1 << 30, LogSize: mcfg.Memory.LogSize}}
 	}
 	c.ch = syncer.NewChannel(mcfg, simSourceAddr)
